@@ -11,3 +11,13 @@ func C06_NewBatch() { focus = "C06"; sceneNewBatch(nbQuick) }
 var exQuick = ReqOpts{MaxProv: 2, OnlyState: -1, NoSlash: true, OneOutput: true}
 
 func C16_Expiry() { focus = "C16"; sceneExpiry(exQuick) }
+
+// one symbolic discount at a time in scenes (products of two symbolic discounts are decided in C07_Discounts)
+func C07_NewBatchByTime() {
+	focus = "C07"
+	sceneNewBatch(ReqOpts{MaxProv: 1, OnlyState: 0, NT: 1, NV: 0, AllBound: true})
+}
+func C07_NewBatchByVolume() {
+	focus = "C07"
+	sceneNewBatch(ReqOpts{MaxProv: 1, OnlyState: 0, NT: 0, NV: 2, AllBound: true})
+}
